@@ -40,15 +40,14 @@ Theorem C07_kll_full_sketch_compacts : forall s log, reach s log -> free s = 0 -
   exists h, find_level (kk s) (length (levels s)) 0 (levels s) = Some h.
 Proof. intros s log R. exact (find_level_full s (r_inv s log (reach_Rel s log R))). Qed.
 
-(* the iterator with the proposed repair (skip empty levels in begin()): num_retained entries, weights 2^level, sum n *)
+(* the iterator of the code (kll_sketch::const_iterator with the repaired constructor, fixes/07_kll_iterator.patch):
+   exactly the retained items, num_retained entries, weight 2^level, weights summing to n.
+   The constructor as coded before the repair is refuted in Regression_C07_kll.C07_kll_iterator_as_coded_refuted. *)
 Theorem C07_kll_iterator_spec : forall s log, reach s log ->
-  len (iterate_fixed s) = num_retained s /\ sum_weights (iterate_fixed s) = nn s /\
-  (forall x w, In (x, w) (iterate_fixed s) <-> exists h, In x (nth h (levels s) []) /\ w = 2 ^ Z.of_nat h).
-Proof. exact P_iterator_fixed. Qed.
-
-(* the iterator AS CODED breaks the weight sum on a reachable sketch (level 0 empty after a merge): finding F2 *)
-Theorem C07_kll_iterator_as_coded_refuted : exists s log, reach s log /\ sum_weights (iterate s) <> nn s.
-Proof. exact kll_iter_refuted. Qed.
+  iterate s = iter_spec 1 (levels s) /\
+  len (iterate s) = num_retained s /\ sum_weights (iterate s) = nn s /\
+  (forall x w, In (x, w) (iterate s) <-> exists h, In x (nth h (levels s) []) /\ w = 2 ^ Z.of_nat h).
+Proof. exact P_iterator. Qed.
 
 (* sorted view: ordered, total cumulative weight n, a rearrangement of the retained items *)
 Theorem C07_kll_sorted_view_spec : forall s log, reach s log -> forall d,
@@ -99,37 +98,42 @@ Theorem C07_kll_pmf_sums_to_one : forall s log, reach s log -> forall sp incl p,
   (fold_right Qplus (inject_Z 0) (map (fun z => inject_Z z / inject_Z (nn s)) p) == inject_Z 1)%Q.
 Proof. exact P_pmf. Qed.
 
-(* invalid queries are refused: empty sketch, rank outside [0, 1], split points not strictly increasing, NaN *)
-Theorem C07_kll_empty_sketch_refuses : forall st r g e, reg_get st r = Some g -> nn (r_sk g) = 0 ->
-  (forall x, step st [6; r; x] e = (st, (refused, []))) /\
-  (forall j t, step st [7; r; j; t] e = (st, (refused, []))) /\
-  (forall sp, step st (8 :: r :: sp) e = (st, (refused, []))).
+(* invalid queries are refused: empty sketch, rank outside [0, 1], split points not strictly increasing, NaN.
+   [mstep st o = Ret r]: the operation draws no coin and answers r (the runner: step st o [] = r) *)
+Theorem C07_kll_empty_sketch_refuses : forall st r g, reg_get st r = Some g -> nn (r_sk g) = 0 ->
+  (forall x, mstep st [6; r; x] = Ret (st, (refused, []))) /\
+  (forall j t, mstep st [7; r; j; t] = Ret (st, (refused, []))) /\
+  (forall sp, mstep st (8 :: r :: sp) = Ret (st, (refused, []))).
 Proof.
-  intros st r g e H N. unfold step. rewrite H, N. simpl. repeat split; intros; reflexivity.
+  intros st r g H N. unfold mstep, parse, mstep_op, pstep. rewrite H, N. simpl. repeat split; intros; reflexivity.
 Qed.
 
-Theorem C07_kll_bad_rank_refused : forall st r g j t e, reg_get st r = Some g -> j < 0 \/ 2 ^ t < j ->
-  step st [7; r; j; t] e = (st, (refused, [])).
+Theorem C07_kll_bad_rank_refused : forall st r g j t, reg_get st r = Some g -> j < 0 \/ 2 ^ t < j ->
+  mstep st [7; r; j; t] = Ret (st, (refused, [])).
 Proof.
-  intros st r g j t e H B. unfold step. rewrite H.
+  intros st r g j t H B. unfold mstep, parse, mstep_op, pstep. rewrite H.
   replace ((nn (r_sk g) =? 0) || (j <? 0) || (2 ^ t <? j)) with true; [reflexivity|].
   symmetry. rewrite !orb_true_iff, !Z.ltb_lt. tauto.
 Qed.
 
-Theorem C07_kll_bad_splits_refused : forall st r g sp e, reg_get st r = Some g ->
-  splits_ok Z Z.ltb sp = false -> fst (snd (step st (8 :: r :: sp) e)) = refused.
+Theorem C07_kll_bad_splits_refused : forall st r g sp, reg_get st r = Some g ->
+  splits_ok Z Z.ltb sp = false -> exists st', mstep st (8 :: r :: sp) = Ret (st', (refused, [])).
 Proof.
-  intros st r g sp e H B. unfold step. rewrite H. destruct (nn (r_sk g) =? 0); [reflexivity|].
-  rewrite (cdf_bad_splits_rejected Z Z.ltb _ sp true B). reflexivity.
+  intros st r g sp H B. unfold mstep, parse, mstep_op, pstep. rewrite H. destruct (nn (r_sk g) =? 0); [eexists; reflexivity|].
+  rewrite (cdf_bad_splits_rejected Z Z.ltb _ sp true B). eexists; reflexivity.
 Qed.
 
-Theorem C07_kll_nan_refused_or_ignored : forall st r g e, reg_get st r = Some g ->
-  (forall rest, fst (snd (step st (9 :: r :: rest) e)) = refused) /\        (* NaN split point *)
-  step st [3; r] e = (st, (ok, [])).                                        (* NaN update: state unchanged *)
+Theorem C07_kll_nan_refused_or_ignored : forall st r g, reg_get st r = Some g ->
+  (forall rest, exists st', mstep st (9 :: r :: rest) = Ret (st', (refused, []))) /\   (* NaN split point *)
+  mstep st [3; r] = Ret (st, (ok, [])).                                            (* NaN update: state unchanged *)
 Proof.
-  intros st r g e H. unfold step. rewrite H. split; [|reflexivity].
-  intro rest. destruct (nn (r_sk g) =? 0); reflexivity.
+  intros st r g H. unfold mstep, parse, mstep_op, pstep. rewrite H. split; [|reflexivity].
+  intro rest. destruct (nn (r_sk g) =? 0); eexists; reflexivity.
 Qed.
+
+(* the runner answers exactly what a coin-free operation answers *)
+Theorem C07_kll_step_of_mstep : forall st o r, mstep st o = Ret r -> step st o [] = r.
+Proof. intros st o r H. unfold step. rewrite H. reflexivity. Qed.
 
 (* while nothing has been compacted (a single level) every rank and quantile is the true value of the input multiset *)
 Theorem C07_kll_exact_rank : forall s log, reach s log -> length (levels s) = 1%nat -> forall x incl,
@@ -143,7 +147,7 @@ Proof. intros s log R S d. split; intros w H; [now apply P_exact_quantile_incl|n
 
 (* non-vacuity: a concrete reachable estimating sketch (37 + 91 updates, one merge, all coins 0) *)
 Example C07_kll_nonvacuous : exists s, witness = Some s /\ nn s = 128 /\ num_retained s = 26 /\
-  sum_weights (iterate s) = 26 /\ hd [1] (levels s) = [] /\ sum_weights (iterate_fixed s) = 128.
+  sum_weights (iterate_as_coded s) = 26 /\ hd [1] (levels s) = [] /\ sum_weights (iterate s) = 128.
 Proof. exact witness_values. Qed.
 
 Print Assumptions C07_kll_weight_conserved.
@@ -154,7 +158,6 @@ Print Assumptions C07_kll_retained_sub_inputs.
 Print Assumptions C07_kll_space_bound.
 Print Assumptions C07_kll_full_sketch_compacts.
 Print Assumptions C07_kll_iterator_spec.
-Print Assumptions C07_kll_iterator_as_coded_refuted.
 Print Assumptions C07_kll_sorted_view_spec.
 Print Assumptions C07_kll_rank_monotone.
 Print Assumptions C07_kll_rank_incl_ge_excl.
@@ -169,5 +172,6 @@ Print Assumptions C07_kll_empty_sketch_refuses.
 Print Assumptions C07_kll_bad_rank_refused.
 Print Assumptions C07_kll_bad_splits_refused.
 Print Assumptions C07_kll_nan_refused_or_ignored.
+Print Assumptions C07_kll_step_of_mstep.
 Print Assumptions C07_kll_exact_rank.
 Print Assumptions C07_kll_exact_quantile.
